@@ -790,3 +790,55 @@ def run_history(make, ops, extra_at=None, qargs=None):
                 break
             snaps.append(snap_obj(qs))
     return outs, snaps, problems, qs
+
+
+# ---------------------------------------------------------------------------------------------
+# the density window of StreamDensityBasedAL (`window_`, `min_dist_`, `_calculate_ldf`) against Core/Density.lean
+
+def density_window_history(rng, n_rounds=None):
+    """One random history on a StreamDensityBasedAL with a small window and the Manhattan distance on integer grid points:
+    per round one `query` (sometimes repeated) and, mostly, the `update` with its result.  `_calculate_ldf` is wrapped to log
+    the local density factor of every instance.  Returns (window_size, driver tokens per call, expected segment per call)."""
+    from skactiveml import stream
+
+    ws = rng.choice([1, 2, 3, 4])
+    seed = rng.randrange(2**31 - 1)
+    qs = stream.StreamDensityBasedAL(budget=rng.choice([0.25, 0.5, 1.0]), window_size=ws, dist_func=manhattan, random_state=seed)
+    log = []
+    cls = type(qs)
+    orig = cls._calculate_ldf
+
+    def spy(self, candidates):
+        r = orig(self, candidates)
+        log.append(int(r))
+        return r
+
+    toks, segs = [], []
+
+    def record(kind, cand):
+        win = [float(v) for row in list(getattr(qs, "window_", [])) for v in np.asarray(row, dtype=float).ravel()]
+        md = [float(v) for v in list(getattr(qs, "min_dist_", []))]
+        flags = [1 if v > 0 else 0 for v in log]
+        toks.append(f"{kind} {len(cand)} " + " ".join(f2bits(v) for row in cand for v in row))
+        segs.append(" ".join(map(str, flags)) + " | " + " ".join(f2bits(v) for v in win) + " | " + " ".join(f2bits(v) for v in md))
+
+    cls._calculate_ldf = spy
+    try:
+        with np.errstate(all="ignore"):
+            for _ in range(n_rounds or rng.randint(2, 7)):
+                cand = gen_candidates(rng, rng.randint(1, 5))
+                for _rep in range(rng.choice([1, 1, 2])):
+                    del log[:]
+                    idx, ut = strat_query(qs, cand)
+                    record("q", cand)
+                if rng.random() < 0.8:
+                    del log[:]
+                    strat_update(qs, cand, idx, ut)
+                    record("u", cand)
+    finally:
+        cls._calculate_ldf = orig
+    return ws, toks, segs
+
+
+def density_window_line(ws, toks):
+    return f"dens_win {ws} {len(toks)} " + " ".join(toks)
